@@ -338,7 +338,7 @@ def judge(case, val, out):
     got = None if out.get("error") == "FilterException" else [tuple(p) for p in out.get("pairs", [])]
     if got == want:
         return None
-    if isinstance(margin, float) and margin < 1e-9 and not case.get("exact"):
+    if isinstance(margin, (int, float)) and not isinstance(margin, bool) and margin < 1e-9 and not case.get("exact"):
         FRAGILE[0] += 1
         return None
     return {"kind": "model-vs-impl", "failing_input": False,
@@ -455,7 +455,7 @@ def grid_cases(ctx):
         for steps in itertools.product((0, 1, 2, 3), repeat=n - 1):
             combos.append(steps)
     ctx.rng.shuffle(combos)
-    budget = ctx.n(3200, 60000)
+    budget = ctx.n(3200, 140000)      # all 1364 (quick) / 21844 (thorough) step sequences are covered
     k = 0
     for steps in combos:
         if k >= budget:
@@ -578,6 +578,9 @@ def run(ctx, replay=None, proofs_ok=True):
         cases = [replay["case"]]
     else:
         cases = corpus() + grid_cases(ctx) + random_cases(ctx)
+        head, rest = cases[:3], cases[3:]
+        ctx.rng.shuffle(rest)        # spread the expensive cases over the parallel case files
+        cases = head + rest
     failures, stats = differential(ctx, cases, imports=IMPORTS, impl=impl, expr=expr, judge=judge,
                                    shrink=shrink, nontrivial=nontrivial, per_file=ctx.n(300, 400))
     hist = {}
